@@ -10,6 +10,7 @@ import (
 	"os/exec"
 	"path/filepath"
 	"strings"
+	"syscall"
 	"time"
 )
 
@@ -176,6 +177,7 @@ func runCfg(c *Case, cc cliCase, cfg cliCfg, dir string) *cliOut {
 func c14Run(c *Case) {
 	if c.Idx == 0 {
 		c14ErrorPaths(c)
+		c14SelectorScope(c)
 		return
 	}
 	rng := c.Rng
@@ -433,6 +435,39 @@ func c14Run(c *Case) {
 	}
 }
 
+// c14SelectorScope: `-r E` against `BEGINFILE { $ = E }` for selectors that mention what the program defines
+// (functions, global names, $file) or that assign names. The implementation evaluates a selector in an interpreter
+// of its own, so these differ: known finding K-SELSCOPE, one entry per witness below (a witness that is not listed
+// in findings/KNOWN_FINDINGS.txt, or any other disagreement, is an ordinary violation).
+var c14ScopeWitnesses = []struct{ id, sel, prog, in string }{
+	{"function", "f($)", "function f(x) { return x.a }\n{ print $ }", `{"a":{"b":[1,2]},"k":"a"}`},
+	{"global", "$[k]", "BEGIN { k = 'a' } { print $ }", `{"a":{"b":[1,2]},"k":"a"}`},
+	{"file-name", "$file", "{ print $ }", `{"a":1}`},
+	{"redefined-builtin", "num($.v)", "function num(x) { return 'mine' }\n{ print $ }", `{"v":10} {"v":20} {"v":30}`},
+	{"state-across-values", "n = n + $.v", "{ print $ }", `{"v":10} {"v":20} {"v":30}`},
+	{"assigned-name-read-by-program", "x = $.a", "{ print x, $ }", `{"a":{"b":[1,2]},"k":"a"}`},
+	// controls: the same shapes without anything from outside the selector agree today and must keep agreeing
+	{"control-member", "$.a", "function f(x) { return x.a }\n{ print f($), $ }", `{"a":{"a":[1,2]},"k":"a"}`},
+	{"control-own-name", "(t = $.v) + t", "{ print $ }", `{"v":10} {"v":20}`},
+}
+
+func c14SelectorScope(c *Case) {
+	for _, w := range c14ScopeWitnesses {
+		files := []InFile{{Name: "d.json", Data: []byte(w.in)}}
+		a := RunLib(w.prog, files, []string{w.sel}, RunOpts{WantRoot: true, Budget: 100000})
+		bprog := "BEGINFILE { $ = " + w.sel + " }\n" + w.prog
+		b := RunLib(bprog, files, nil, RunOpts{WantRoot: true, Budget: 100000})
+		c.NonTrivial("selector-scope:" + w.id)
+		c.Count("selector_scope_witnesses")
+		if a.Class == b.Class && string(a.Stdout) == string(b.Stdout) && a.RootJSON == b.RootJSON {
+			c.Held()
+			continue
+		}
+		c.Violation(fmt.Sprintf("R5 (%s): -r %q ends as %s %q, BEGINFILE { $ = %s } as %s %q | program %s", w.id, w.sel, a.Class, clip(string(a.Stdout)+a.Msg, 80), w.sel, b.Class, clip(string(b.Stdout)+b.Msg, 80), clip(w.prog, 100)),
+			[]string{"selscope:" + w.id}, map[string]any{"selector": w.sel, "program": w.prog, "program_beginfile_form": bprog, "input": w.in})
+	}
+}
+
 func c14ErrorPaths(c *Case) {
 	dir := filepath.Join(c.env.Scratch, "c14e")
 	os.MkdirAll(dir, 0o755)
@@ -453,7 +488,7 @@ func c14ErrorPaths(c *Case) {
 	cases := []ec{
 		{"nonexistent program file", []string{"-f", "nope.jqawk", "a.json"}, nil, false, ""},
 		{"nonexistent input file", []string{"--", "{ print $ }", "nope.json"}, nil, false, ""},
-		{"nonexistent second input file", []string{"--", "{ print $ }", "a.json", "nope.json"}, nil, false, ""},
+		{"nonexistent second input file", []string{"--", "{ print $ }", "a.json", "nope.json"}, nil, false, "1\n2\n"}, // files are processed in the order given: the first one is done by then
 		{"directory as input", []string{"--", "{ print $ }", "adir"}, nil, false, ""},
 		{"-o naming a directory", []string{"-o", "adir", "--", "{ }", "a.json"}, nil, false, ""},
 		{"-o into a missing directory", []string{"-o", "missing/out.json", "--", "{ }", "a.json"}, nil, false, ""},
@@ -489,6 +524,60 @@ func c14ErrorPaths(c *Case) {
 		default:
 			c.Held()
 		}
+	}
+	// standard output that cannot be written (a full device): a run that has something to print fails with a
+	// diagnostic, a run that prints nothing is not disturbed
+	if full, err := os.OpenFile("/dev/full", os.O_WRONLY, 0); err == nil {
+		defer full.Close()
+		for _, e := range []struct {
+			name   string
+			args   []string
+			wantOK bool
+		}{
+			{"print to a full device", []string{"--", "{ print $ }", "a.json"}, false},
+			{"printf to a full device", []string{"--", "BEGIN { printf('%s', 'x') }", "a.json"}, false},
+			{"a rule without a body prints to a full device", []string{"--", "$ > 1", "a.json"}, false},
+			{"print in END to a full device", []string{"--", "{ n++ } END { print n }", "a.json"}, false},
+			{"-o - to a full device", []string{"-o", "-", "--", "{ }", "a.json"}, false},
+			{"-o - after print to a full device", []string{"-o", "-", "--", "{ print 'x' }", "a.json"}, false},
+			{"-o FILE with nothing printed, stdout a full device", []string{"-o", "out-full.json", "--", "{ $ = 1 }", "a.json"}, true},
+			{"nothing printed, stdout a full device", []string{"--", "{ n += $ }", "a.json"}, true},
+			{"pattern never true, stdout a full device", []string{"--", "$ > 5 { print }", "a.json"}, true},
+		} {
+			heartbeat()
+			cmd := exec.Command(c.env.Jqawk, e.args...)
+			cmd.Dir = dir
+			cmd.Stdin = bytes.NewReader(nil)
+			var se bytes.Buffer
+			cmd.Stdout, cmd.Stderr = full, &se
+			cmd.Env = append(os.Environ(), "GOTRACEBACK=single")
+			err := cmd.Run()
+			r := &CliResult{Stderr: se.Bytes()}
+			if ee, ok := err.(*exec.ExitError); ok {
+				r.Exit = ee.ExitCode()
+				if ws, ok := ee.Sys().(syscall.WaitStatus); ok && ws.Signaled() {
+					r.Signal = ws.Signal().String()
+				}
+			} else if err != nil {
+				c.Inconclusive("could-not-start")
+				continue
+			}
+			c.NonTrivial("errpath:" + e.name)
+			c.Count("full_device_paths")
+			rp := map[string]any{"args": e.args, "stdout": "/dev/full", "stderr": se.String(), "exit": r.Exit}
+			switch f := cliFault(r); {
+			case f != "":
+				c.Violation(e.name+": "+f+" | stderr "+clip(se.String(), 160), nil, rp)
+			case e.wantOK && r.Exit != 0:
+				c.Violation(fmt.Sprintf("%s: nothing is written to standard output, yet exit %d, stderr %q", e.name, r.Exit, clip(se.String(), 100)), nil, rp)
+			case !e.wantOK && (r.Exit == 0 || strings.TrimSpace(se.String()) == ""):
+				c.Violation(fmt.Sprintf("%s: the output is lost, yet exit %d, stderr %q (expected a non-zero status with a diagnostic)", e.name, r.Exit, clip(se.String(), 100)), nil, rp)
+			default:
+				c.Held()
+			}
+		}
+	} else {
+		c.Inconclusive("no-/dev/full")
 	}
 	// EIO on the first and second read of an input file
 	if _, err := exec.LookPath("strace"); err == nil {
@@ -527,7 +616,7 @@ func c14ErrorPaths(c *Case) {
 func init() {
 	register(&Prop{
 		ID: "C14", Level: "exploration",
-		Rule: "each case is a (program, inputs, selectors) triple from the pools of C02/C07/C09 plus failing programs, malformed inputs, JSONL, root-modifying programs and program texts with raw CR LF / tab / control bytes inside literals, run in one cell of the 54-cell configuration matrix {inline, -f} x {stdin, 1 file, 2-3 files} x {0, 1, 2 -r} x {no -o, -o -, -o FILE} (cells are visited round-robin by case index). Relations checked on the real binary: (R1) stdout, -o bytes and exit class equal the library's result on the same tree (files and selectors in the same order; -o with several inputs refused); in a third of the one-file cells -o FILE names the input file itself, in a fifth of the file cells the first file operand is repeated at the end (also spelled ./file); (R2) -f FILE == inline; (R3) stdin == the same bytes in a file for programs that do not mention $file; (R4) the bytes `-o -` prints after the program's own output are exactly what `-o FILE` writes; (R5) `-r E` == `BEGINFILE { $ = E }` for side-effect-free selectors (members present / missing / out of range, method calls, literals) and programs that modify $ only in pattern rules, including what -o writes, also over several files and several values per input; (R6) two selectors print what each prints alone, one after the other, and -o writes what the last alone writes; (R7) for programs without state across values, a run over several files / several values per input / several selectors prints exactly the concatenation of the runs value by value (each processed once, in order). Enumerated: 16 error paths and orderings (missing program / input files, directory as input, unwritable -o, -o with two files, -o without any value, file and selector order, error after output) and strace-injected EIO. Non-trivial = the case produces output or an -o document; distinct by cell+program+inputs+selectors.",
+		Rule: "each case is a (program, inputs, selectors) triple from the pools of C02/C07/C09 plus failing programs, malformed inputs, JSONL, root-modifying programs and program texts with raw CR LF / tab / control bytes inside literals, run in one cell of the 54-cell configuration matrix {inline, -f} x {stdin, 1 file, 2-3 files} x {0, 1, 2 -r} x {no -o, -o -, -o FILE} (cells are visited round-robin by case index). Relations checked on the real binary: (R1) stdout, -o bytes and exit class equal the library's result on the same tree (files and selectors in the same order; -o with several inputs refused); in a third of the one-file cells -o FILE names the input file itself, in a fifth of the file cells the first file operand is repeated at the end (also spelled ./file); (R2) -f FILE == inline; (R3) stdin == the same bytes in a file for programs that do not mention $file; (R4) the bytes `-o -` prints after the program's own output are exactly what `-o FILE` writes; (R5) `-r E` == `BEGINFILE { $ = E }` for side-effect-free selectors (members present / missing / out of range, method calls, literals) and programs that modify $ only in pattern rules, including what -o writes, also over several files and several values per input; (R6) two selectors print what each prints alone, one after the other, and -o writes what the last alone writes; (R7) for programs without state across values, a run over several files / several values per input / several selectors prints exactly the concatenation of the runs value by value (each processed once, in order). Enumerated: 16 error paths and orderings (missing program / input files, directory as input, unwritable -o, -o with two files, -o without any value, file and selector order, error after output) strace-injected EIO, and 9 runs with standard output on /dev/full (a run that has something to print fails with a diagnostic, one that prints nothing succeeds). 8 fixed selector / program pairs that mention functions, globals, $file or assign names, run as `-r E` and as `BEGINFILE { $ = E }` (6 are witnesses of known finding K-SELSCOPE, 2 are controls). Non-trivial = the case produces output or an -o document; distinct by cell+program+inputs+selectors.",
 		NumCases: func(tier string) int {
 			if tier == "thorough" {
 				return 1 + 54*1000
